@@ -113,6 +113,10 @@ func genLifePlan(e *Env) *lifePlan {
 	if e.Prop == "C13" {
 		p.Mode = "serve"
 		p.Concurrency = Pick(e, 1, 2, 3)
+		if e.Chance(35) {
+			// Stop arrives while connections are still being served
+			p.ShutdownMs = Pick(e, 0, 10, 100, 300, 1000, 2500)
+		}
 	}
 	if e.Prop == "C15" {
 		p.Mode = "serve"
@@ -442,6 +446,19 @@ func (r *lifeRun) run() {
 	case "C12":
 		r.judgeLimits()
 	case "C13":
+		if p.ShutdownMs >= 0 {
+			for i := 0; i < 6000 && r.shutdownRet < 0; i++ {
+				time.Sleep(100 * time.Millisecond)
+			}
+			if r.shutdownRet < 0 {
+				e.Inconclusive("Shutdown had not returned 10 simulated minutes after every client finished (C15's subject)")
+				return
+			}
+			e.Probe("stop-mid-traffic")
+			r.judgeWorkers()
+			r.judgeWorkersAfterStop()
+			return
+		}
 		r.judgeWorkers()
 	case "C14":
 		r.judgeStates()
